@@ -33,7 +33,7 @@ GenNested(name) ==
                                  <<x.c.open, x.c.close, x.c.clear>> \in
                                     {<<3, -1, FALSE>>, <<0, 4, FALSE>>, <<0, -1, TRUE>>, <<3, 4, TRUE>>, <<3, 0, FALSE>>, <<3, 2, FALSE>>} }]
       [] name = "thorough" ->
-            [cfgs |-> [open : Open03, close : Close04, clear : BOOLEAN, filter : {NoFilter, F("ge", 3), F("nott", 1)}],
+            [cfgs |-> [open : Open03, close : Close04, clear : BOOLEAN, filter : {NoFilter, F("ge", 3)}],
              inners |-> { x \in InnersOf(Open03, Close024, FAll) : Emittable(x) }]
 \* the ledgers (among those of the replay) the nested statements are run on: transactions that differ in date and accounts
 NestedLedger(name, l) ==
